@@ -145,6 +145,13 @@ def scenarios(tier):
         {"name": "3:rename-x|select-e|select-e (e inactive)", "cfg_ref": ["vf.props.c06", "cfg", []], "prelude": [{"s": "A", "op": "select", "m": "INBOX"}],
          "concurrent": {"A": [{"s": "A", "op": "rename", "m": "x", "to": "y"}], "B": [{"s": "B", "op": "select", "m": "e"}], "C": [{"s": "C", "op": "select", "m": "e"}]},
          "loopopts": {"preempt_timers": False}},
+        # a mailbox with an inferior is deleted (kept as a \\Noselect placeholder) while APPEND / COPY into it wait in its queue
+        {"name": "delete-parent|append-into", "cfg_ref": ["vf.props.c06", "cfg", []], "prelude": [{"s": "A", "op": "select", "m": "INBOX"}, {"s": "B", "op": "select", "m": "INBOX"}],
+         "concurrent": {"A": [{"s": "A", "op": "delete", "m": "p"}], "B": [{"s": "B", "op": "append", "m": "p", "cid": "q9"}, {"s": "B", "op": "noop"}]},
+         "loopopts": {"preempt_timers": False}, "epilogue_create": ["p"]},
+        {"name": "delete-parent|copy-into", "cfg_ref": ["vf.props.c06", "cfg", []], "prelude": [{"s": "A", "op": "select", "m": "INBOX"}, {"s": "B", "op": "select", "m": "INBOX"}],
+         "concurrent": {"A": [{"s": "A", "op": "delete", "m": "p"}], "B": [{"s": "B", "op": "copy", "set": "1", "dst": "p"}, {"s": "B", "op": "noop"}]},
+         "loopopts": {"preempt_timers": False}, "epilogue_create": ["p"]},
         # the destination's session looks at internal dates while the COPY / MOVE that adds the messages is finishing
         # (an I/O operation passed over stays postponed until nothing else can run: one slow file operation, not one per step)
         dict(scn("copy|fetchdates-in-dst", SEL_A_Bo, A=["copy12"], B=["fetchdates", "fetchdates"]), loopopts={"preempt_timers": False, "sticky_ops": True}),
